@@ -48,7 +48,13 @@ def shards(tier):
     return out
 
 
-def accept(st: Stats, dev: RefAC, frame: bytes, case, want_cmd: int, want_type: int):
+def accept(st: Stats, dev: RefAC, frame, case, want_cmd: int, want_type: int):
+    if callable(frame):
+        try:
+            frame = frame()
+        except Exception as e:  # noqa: BLE001 - a command that cannot be serialised is not well-formed
+            st.violation(f"{case['cmd']}: tobytes raised {type(e).__name__}", case, "a frame", str(e)[:100])
+            return "raised"
     n0, r0 = len(dev.frames), len(dev.rejected)
     resp = dev.handle(frame)
     prob = None
@@ -104,12 +110,12 @@ def run_direct(st: Stats, kind, part):
                 for container in (list, set):
                     c = cmd.GetPropertiesCommand(container(sub))
                     case = {"cmd": "GetProperties", "props": [int(p) for p in sub], "container": container.__name__}
-                    prob = accept(st, dev, c.tobytes(), case, 0xB1, 0x03)
+                    prob = accept(st, dev, c.tobytes, case, 0xB1, 0x03)
                     if not prob and sorted(dev.prop_gets[-1]) != sorted(int(p) for p in sub):
                         prob = "ids differ"
                         st.violation("GetProperties: requested ids differ", case, sorted(int(p) for p in sub), dev.prop_gets[-1])
                     st.ev(("gp", sub, container.__name__), "ok" if not prob else "bad", k > 0,
-                          sample=None if k != 3 or len(st.samples) > 0 else {**case, "frame": c.tobytes().hex()})
+                          sample=None if k != 3 or len(st.samples) > 0 else case)
     elif kind == "setprops":
         idx = 0
         for k in range(len(SUPPORTED) + 1):
@@ -121,12 +127,12 @@ def run_direct(st: Stats, kind, part):
                     props = {p: PVALUES[p][variant % len(PVALUES[p])] for p in sub}
                     c = cmd.SetPropertiesCommand(props)
                     case = {"cmd": "SetProperties", "props": {str(int(p)): int(v) for p, v in props.items()}}
-                    prob = accept(st, dev, c.tobytes(), case, 0xB0, 0x02)
+                    prob = accept(st, dev, c.tobytes, case, 0xB0, 0x02)
                     if not prob and [pid for pid, _ in dev.prop_sets[-1]] != [int(p) for p in props]:
                         prob = "ids differ"
                         st.violation("SetProperties: ids differ", case, [int(p) for p in props], dev.prop_sets[-1])
                     st.ev(("sp", sub, variant), "ok" if not prob else "bad", k > 0,
-                          sample=None if k != 2 or len(st.samples) > 0 else {**case, "frame": c.tobytes().hex()})
+                          sample=None if k != 2 or len(st.samples) > 0 else case)
     elif kind == "setstate":
         from .c10 import gen_cases
         for s in gen_cases():
@@ -137,7 +143,7 @@ def run_direct(st: Stats, kind, part):
             c.freeze_protection, c.follow_me, c.purifier = s["freeze"], s["follow_me"], s["purifier"]
             c.target_humidity = s["humidity"]
             c.aux_heat, c.independent_aux_heat = s["aux"] == 1, s["aux"] == 2
-            prob = accept(st, dev, c.tobytes(), {"cmd": "SetState", "state": s}, 0x40, 0x02)
+            prob = accept(st, dev, c.tobytes, {"cmd": "SetState", "state": s}, 0x40, 0x02)
             st.ev(("ss", tuple(sorted(s.items()))), "ok" if not prob else "bad", True)
     else:
         for mk, name, cid, ft in [
@@ -148,14 +154,14 @@ def run_direct(st: Stats, kind, part):
             (lambda: cmd.GetHumidityCommand(), "GetHumidity", 0x41, 3),
         ]:
             for rep in range(300):     # across every message id value
-                prob = accept(st, dev, mk().tobytes(), {"cmd": name, "rep": rep}, cid, ft)
+                prob = accept(st, dev, mk().tobytes, {"cmd": name, "rep": rep}, cid, ft)
                 st.ev(("misc", name, rep), "ok" if not prob else "bad", True)
         for beep in (False, True):
             for rep in range(300):
                 c = cmd.ToggleDisplayCommand()
                 c.beep_on = beep
                 before = dev.state["display_on"]
-                prob = accept(st, dev, c.tobytes(), {"cmd": "ToggleDisplay", "beep": beep, "rep": rep}, 0x41, 3)
+                prob = accept(st, dev, c.tobytes, {"cmd": "ToggleDisplay", "beep": beep, "rep": rep}, 0x41, 3)
                 if not prob and (dev.state["display_on"] == before or dev.display_beep != beep):
                     prob = "not understood as a display toggle with the requested beep"
                     st.violation("ToggleDisplay: " + prob, {"cmd": "ToggleDisplay", "beep": beep}, "toggle", "no toggle")
